@@ -92,6 +92,25 @@ func EvoCases(sup *schema.Support) []*schema.Case {
 		out = append(out, evoContainers("CEv"+s.name+"Old", s.old)...)
 		out = append(out, evoContainers("CEv"+s.name+"New", s.new)...)
 	}
+	// the evolved message declared INLINE as a union branch and referenced by name from other records
+	for _, ver := range []string{"Old", "New"} {
+		m := &schema.Record{Kind: schema.Message, Inline: true, Name: "EvBr" + ver + "Msg", Label: "message:evolved-union-member",
+			Fields: []schema.Field{{Name: "a", Index: 1, Type: schema.P("int32")}, {Name: "s", Index: 2, Type: schema.P("string")}}}
+		if ver == "New" {
+			m.Fields = append(m.Fields, schema.Field{Name: "x", Index: 3, Type: schema.P("string")}, schema.Field{Name: "y", Index: 4, Type: schema.P("int32")})
+		}
+		other := &schema.Record{Kind: schema.Struct, Inline: true, Name: "EvBr" + ver + "Other", Fields: []schema.Field{{Name: "v", Type: schema.P("int32")}}}
+		id := "CEvBr" + ver
+		u := &schema.Record{Kind: schema.Union, Name: id + "U", Branches: []schema.Branch{{Disc: 1, Rec: m}, {Disc: 2, Rec: other}}}
+		after := schema.Field{Name: "after", Type: schema.P("int32")}
+		mt := schema.R(m)
+		out = append(out,
+			&schema.Case{ID: u.Name, Ctx: "EV", Class: "EV|BR-union", Rec: u},
+			&schema.Case{ID: id + "SF", Ctx: "EV", Class: "EV|BR-SF", Rec: &schema.Record{Kind: schema.Struct, Name: id + "SF", Fields: []schema.Field{{Name: "m", Type: mt}, after}}},
+			&schema.Case{ID: id + "AR", Ctx: "EV", Class: "EV|BR-AR", Rec: &schema.Record{Kind: schema.Struct, Name: id + "AR", Fields: []schema.Field{{Name: "ms", Type: schema.A(mt)}, after}}},
+			&schema.Case{ID: id + "MF", Ctx: "EV", Class: "EV|BR-MF", Rec: &schema.Record{Kind: schema.Message, Name: id + "MF", Fields: []schema.Field{{Name: "m", Index: 1, Type: mt}, {Name: "after", Index: 2, Type: schema.P("int32")}}}},
+		)
+	}
 	return out
 }
 
@@ -151,11 +170,6 @@ func (w *W) c04(groups [][]*driver.Bound, byID map[string]*schema.Case) {
 			idx[fmt.Sprintf("%s@%d", b.Case.ID, b.Opt)] = b
 		}
 	}
-	defer func() {
-		if w.res.States == 0 && w.res.HarnessErr == "" && w.si == 0 {
-			w.res.HarnessErr = "C04: no schema-evolution case was compiled into this worker (the evolution batch failed to generate or type-check: see C12), nothing could be checked"
-		}
-	}()
 	ord := 0
 	for _, g := range groups {
 		if !isEvo(g) {
